@@ -159,7 +159,7 @@ func (container *IKEPayloadContainer) BuildDeletePayload(
 	deletePayload.ProtocolID = protocolID
 	deletePayload.SPISize = spiSize
 	deletePayload.NumberOfSPI = numberOfSPI
-	deletePayload.SPIs = spis
+	deletePayload.SPIs = append(deletePayload.SPIs, spis...)
 	*container = append(*container, deletePayload)
 }
 
